@@ -122,7 +122,7 @@ func GenOps(tp *simkern.Tape, c GenCfg) []*Op {
 			if m.Kind == "dynamic" {
 				op.StreamKind = []string{"producer", "exchange"}[tp.Draw(2)]
 			}
-			op.Script = hx.GenStreamScript(tp, nonce, op.StreamKind, hx.GenOpts{MaxTurns: c.MaxTurns, FailBias: c.FailBias, AllowMeta: c.EmitMeta, Pad: c.Pad, NoHook: c.NoHook})
+			op.Script = hx.GenStreamScript(tp, nonce, op.StreamKind, hx.GenOpts{MaxTurns: c.MaxTurns, FailBias: c.FailBias, AllowMeta: c.EmitMeta, Pad: c.Pad, NoHook: c.NoHook, Icept: c.NoHook})
 			op.Script.Header = m.Header
 			if c.InitFail && tp.Bool(1, 6) {
 				hx.GenInitFailure(tp, op.Script)
